@@ -87,6 +87,9 @@ def structures(tier):
         for nd in (0, 1, 2):
             for thd in (False, True):
                 sts.append({'name': 'PERF_Event', 'sc': 'sampler', 'hdr': hdr, 'nd': nd, 'thd': thd})
+    img = ['DYLD_uuid_map_a', 'DYLD_uuid_shared_cache_a']
+    for ks in [[]] + [[a] for a in img] + [[a, b] for a in img for b in img] + ([[a, b, a] for a in img for b in img] if tier == 'thorough' else []):
+        sts.append({'name': 'DBG_DYLD_TIMING_LAUNCH_EXECUTABLE', 'sc': 'launch', 'images': ks})
     for k in range(4 if tier == 'quick' else 12):
         sts.append({'name': 'BSC_getpid', 'sc': 'long', 'n': 40000 + 1013 * k, 'seed': k})
     return sts
@@ -192,6 +195,13 @@ def scenario_events(ctx, st):
             evs.append(_mk(ctx, 'n%d' % i, k, 0, 11 + i, w))
         evs.append(_mk(ctx, 'r', name, E, 20))
         return evs, None
+    if sc == 'launch':
+        # nested image records with free load addresses (equal addresses included) and free timestamps order
+        evs = [_mk(ctx, 'a', name, S, 10)]
+        for i, k in enumerate(st['images']):
+            evs.append(_mk(ctx, 'i%d' % i, k, 0, 11 + i))
+        evs.append(_mk(ctx, 'r', name, E, 20))
+        return evs, None
     if sc == 'sampler':
         evs = [_mk(ctx, 'a', name, S, 10)]
         if st['thd']:
@@ -219,6 +229,8 @@ def label_of(st):
         sc = 'nested=' + ('+'.join(x.replace('RealFaultAddress', '') for x in st['nested']) or 'none')
     elif sc == 'sampler':
         sc = 'sampler-hdr%d-data%d-thd%d' % (st['hdr'], st['nd'], st['thd'])
+    elif sc == 'launch':
+        sc = 'launch-images=%d' % len(st['images'])
     return 'C07/%s/%s%s' % (st['name'], sc, '/arbitrary-tables' if st.get('pre') else '')
 
 
